@@ -329,8 +329,9 @@ Proof.
   intros HI1 HI Hs. unfold step in Hs.
   destruct l; dstep Hs; try discriminate Hs; injection Hs as Hs; subst s'.
   all: try exact HI.
-  all: try (apply Inv2_sett).
+  all: try (match goal with |- Inv2 (sett _ _ _) => apply Inv2_sett end).
   all: try exact HI.
-  all: try (eapply Inv2_setr; [exact HI | eassumption | simp_reg | simp_reg | simp_reg]; fail).
-  all: try (eapply Inv2_gate; eauto; fail).
+  all: try (match goal with |- Inv2 (setr _ _ (r_gate _ _ _)) => eapply Inv2_gate; eauto end; fail).
+  all: try (match goal with |- Inv2 (setr _ _ _) =>
+              eapply Inv2_setr; [exact HI | eassumption | simp_reg | simp_reg | simp_reg] end; fail).
 Admitted.
